@@ -17,6 +17,7 @@ import CueVerif.Proofs.DisjOrder
 import CueVerif.Proofs.DisjNested
 import CueVerif.Proofs.DisjNested1
 import CueVerif.Proofs.DisjNested2
+import CueVerif.Proofs.DisjNested4
 import CueVerif.Proofs.DisjFinal
 namespace CueVerif.C04
 open CueVerif CueVerif.Disj
@@ -153,6 +154,43 @@ theorem C04_default_nested_scalars (S : Sl V) (h : Laws S) (e : Expr V)
 example : (Expr.and (Witness.a 2) (.or (.mark (.paren (.or (Witness.a 1) (Witness.a 3)))) (.paren Witness.C))).NestedSingle = true ∧
     (eval Witness.flat4 (Expr.and (Witness.a 2) (.or (.mark (.paren (.or (Witness.a 1) (Witness.a 3)))) (.paren Witness.C)))).resolve = .value 2 := by
   decide
+
+/-- A node whose earlier conjuncts are mark-free expressions of ANY shape (atoms, unmarked
+disjunctions, nested ones, any number) and whose last conjunct is a (marked) disjunction with
+arbitrarily nested mark-free terms (`Expr.PreNested`, e.g.
+`int & (1 | (2 | 3)) & (*(1 | 2) | 3 | (2 | (3 | 4)))`): resolves as the spec.  Uses
+`chain_sets_cross`: the marked nested disjunction evaluated against ANY list of partial
+disjuncts without default (`leftDropsDefault` stays true, dedup across operands). -/
+theorem C04_default_pre_nested (S : Sl V) (h : Laws S) (e : Expr V) (hf : e.PreNested = true) :
+    (eval S e).resolve = (specPair S e).resolve :=
+  default_preNested S h e hf
+
+-- non-vacuity: `(2 | (3 | 1)) & (*(1 | 2) | 3)`: prefix nested and unmarked, two defaults survive
+example : (Expr.and (.or (Witness.a 2) (.paren (.or (Witness.a 3) (Witness.a 1))))
+      (.paren (.or (.mark (.paren (.or (Witness.a 1) (Witness.a 2)))) (Witness.a 3)))).PreNested = true ∧
+    (eval Witness.flat4 (Expr.and (.or (Witness.a 2) (.paren (.or (Witness.a 3) (Witness.a 1))))
+      (.paren (.or (.mark (.paren (.or (Witness.a 1) (Witness.a 2)))) (Witness.a 3))))).defaults = [2, 1] := by
+  decide
+
+/-- OPEN (believed true, not refuted by 10^6 generated cases): the general one-marked nested
+statement — any number of atoms and of disjunctions with mark-free nested terms among the
+conjuncts of the node, IN ANY ORDER, at most one of the disjunctions marked.  Proved so far:
+no marked one (`C04_default_unmarked`), flat terms (`C04_default_partial`), the marked one
+alone with atoms (`C04_default_nested_scalars`), the marked one LAST (`C04_default_pre_nested`).
+Missing: mark-free disjunction conjuncts AFTER the marked nested one.  Invariant to carry
+through such a conjunct `e` (mark-free, any depth) for a cross list `c` with
+`NoStale c` (odm = isDefault → dm = isDefault):
+  `valsP (conj c) = mt (valsP c) V(e)` and `defsP (conj c) = mt (defsP c) V(e)`,
+i.e. isDefault-ness is inherited per source disjunct: under a left operand `p` every nested
+leaf has mode `f p.dm` with `f isDefault = isDefault`, `f _ = maybeDefault` (nested
+`leftDrops = (p.dm ≠ isDefault)`), the leaf arm yields `cd2(f p.dm, maybe, ld, true)`, the
+unroll arm `cd2(p.dm, f p.dm, ld, false) = (ld ? f p.dm : p.dm)`, both isDefault iff
+`p.dm = isDefault` (`ld` is false whenever an isDefault `p` survives); the non-default leaves
+may be `maybe` or `notDefault` (the `hasNonMaybe` demotion), which no later step of this
+fragment distinguishes because no second marked disjunction follows. -/
+def C04_default_nested_conj_stmt : Prop :=   -- OPEN
+  ∀ (V : Type) [DecidableEq V] (S : Sl V), Laws S → ∀ e : Expr V,
+    e.nestedConj = true → e.markedChains ≤ 1 → (eval S e).resolve = (specPair S e).resolve
 
 /-! ### order independence of `d1 & d2 & … & dn` (also serves C01)
 
